@@ -26,7 +26,7 @@ LEVEL = "exploration"
 RULE = ("streams of good frames with bad frames at generated positions; distinct by hash of the frame list + configuration; non-trivial = at "
         "least one bad frame was followed by a good frame whose processing was compared with the twin's.")
 ASSUMPTIONS = ["a frame whose GN headers the strict reference parser accepts is not 'bad' for the twin comparison: it is given to both twins (its payload may still be undecodable for the facility); only liveness is judged for it",
-               "a wall-clock watchdog (10 s per frame) ends a run as inconclusive, never as a violation"]
+               "a wall-clock watchdog (60 s per frame) ends a run as inconclusive, never as a violation"]
 REQUIRED_COUNTERS = ["frames_fed", "bad_frames_fed", "twin_comparisons", "good_after_bad_compared", "liveness_checks", "cv2x_loop_frames", "ignored_mac_frames"]
 
 OWN_MAC = bytes.fromhex("02aabbccdd01")
@@ -156,7 +156,7 @@ class Node:
             self.thread.start()
             self.router.link_layer = self.ll
 
-    def feed(self, eth_frame, timeout=10.0):
+    def feed(self, eth_frame, timeout=60.0):
         """Hand one link-layer frame to the real loop and wait until the loop asks for the next one.
         Returns 'ok', 'dead' or 'watchdog'."""
         import time
